@@ -56,6 +56,7 @@ struct Ctx {
   std::vector<int> script;
   size_t ndecisions = 0;
   bool record = true;      // set false to suppress decision recording
+  bool memo = false;       // a comparison already decided on this path (same operator, same nodes) is not asked again
 };
 
 inline Ctx& ctx () { static Ctx c; return c; }
@@ -179,6 +180,9 @@ inline bool symx_decide (symx::Cmp c, const Sym& a, const Sym& b, bool shadow)
   // |x| >= 0 and |x| < 0 against the literal zero are facts, not decisions
   if (!concrete && cx.nodes[a.id].op == symx::FABS && cx.nodes[b.id].op == symx::LIT && cx.nodes[b.id].lit == 0.0
       && (c == symx::GE || c == symx::LT)) { concrete = true; shadow = (c == symx::GE); }
+  if (!concrete && cx.memo && cx.record)
+    for (const auto& d : cx.pc)
+      if (d.c == c && d.a == a.id && d.b == b.id) return d.outcome;
   if (!concrete) {
     if (cx.forced && cx.ndecisions < cx.script.size())
       outcome = cx.script[cx.ndecisions] != 0;
